@@ -268,14 +268,119 @@ pub fn check_clone(c: &CloneCase, st: &mut Stats) -> CheckResult {
     }
 }
 
+// ---------------------------------------------------------------- combining adaptors outside the tree: mul_hz, bus outputs
+
+#[derive(Clone, Debug, Serialize, Deserialize)]
+pub enum CombCase {
+    /// `source.mul_hz(interp, control)`: a source of `src_len` frames, a control signal of `ctl_len` values, all equal to `ratio_q`/4
+    MulHz { src_len: u64, ctl_len: u64, ratio_q: u32, linear: bool },
+    /// a bus over a source of `src_len` frames with `outputs` outputs attached up front; `schedule[k]` names the output that
+    /// pulls next (an output that is already exhausted does not pull, as a consumer using until_exhausted would not)
+    Bus { src_len: u64, outputs: usize, schedule: Vec<usize> },
+}
+
+fn comb_src(len: u64) -> signal::FromIterator<std::vec::IntoIter<f64>> {
+    signal::from_iter((0..len).map(|i| 1.0 + i as f64).collect::<Vec<f64>>())
+}
+
+pub fn check_comb(c: &CombCase, st: &mut Stats) -> CheckResult {
+    use dasp_interpolate::{floor::Floor, linear::Linear};
+    use dasp_signal::interpolate::Converter;
+    match c {
+        CombCase::MulHz { src_len, ctl_len, ratio_q, linear } => {
+            ensure!(*ratio_q >= 1, "bad case: ratio must be > 0");
+            let r = *ratio_q as f64 / 4.0;
+            let ctl = || signal::from_iter(vec![r; *ctl_len as usize]);
+            // reference for the carrier side: a plain converter at the same constant ratio (its exhaustion is C08's subject)
+            macro_rules! go {
+                ($mk:expr) => {{
+                    let (mut s1, mut s2, mut s3) = (comb_src(*src_len), comb_src(*src_len), comb_src(*src_len));
+                    let (i1, i2, i3) = ($mk(&mut s1), $mk(&mut s2), $mk(&mut s3));
+                    let mut mh = s1.mul_hz(i1, ctl());
+                    let mut twin = Converter::scale_playback_hz(s2, i2, r);
+                    let mut k = 0u64;
+                    let mut by_ctl = false;
+                    loop {
+                        let carrier_done = twin.is_exhausted();
+                        let ctl_done = k >= *ctl_len;
+                        let exp = carrier_done || ctl_done;
+                        let got = mh.is_exhausted();
+                        ensure!(got == exp, "mul_hz over a source of {} frames and {} multiplier values (ratio {}), before output {}: is_exhausted() = {}, expected {} (carrier side exhausted: {}, multiplier signal exhausted: {})", src_len, ctl_len, r, k, got, exp, carrier_done, ctl_done);
+                        if exp {
+                            by_ctl = ctl_done && !carrier_done;
+                            break;
+                        }
+                        let (a, b) = (mh.next(), twin.next());
+                        ensure!(a == b, "mul_hz output {} = {}, a converter at the same constant ratio {} yields {}", k, a, r, b);
+                        k += 1;
+                        ensure!(k <= *ctl_len, "harness: did not stop");
+                    }
+                    let n = s3.mul_hz(i3, ctl()).until_exhausted().take(k as usize + 10).count() as u64;
+                    ensure!(n == k, "until_exhausted() over mul_hz (source {} frames, {} multiplier values, ratio {}) yields {} frames, expected {}", src_len, ctl_len, r, n, k);
+                    by_ctl
+                }};
+            }
+            let by_ctl = if *linear {
+                go!(|s: &mut signal::FromIterator<std::vec::IntoIter<f64>>| {
+                    let a = s.next();
+                    Linear::new(a, s.next())
+                })
+            } else {
+                go!(|s: &mut signal::FromIterator<std::vec::IntoIter<f64>>| Floor::new(s.next()))
+            };
+            st.nt(true);
+            st.class_if(by_ctl, "mul_hz: the multiplier signal ends first");
+            st.class_if(!by_ctl, "mul_hz: the carrier ends first");
+            Ok(())
+        }
+        CombCase::Bus { src_len, outputs, schedule } => {
+            use dasp_signal::bus::SignalBus;
+            ensure!(*outputs >= 1, "bad case: no output");
+            let l = *src_len;
+            let bus = comb_src(l).bus();
+            let mut outs: Vec<_> = (0..*outputs).map(|_| bus.send()).collect();
+            let mut recv = vec![0u64; *outputs];
+            let mut lagging_while_done = false;
+            let all_flags = |outs: &Vec<_>, recv: &Vec<u64>, what: &str| -> CheckResult {
+                for j in 0..recv.len() {
+                    let o: &dasp_signal::bus::Output<_> = &outs[j];
+                    let (got, exp) = (o.is_exhausted(), recv[j] >= l);
+                    ensure!(got == exp, "{}: output {} has received {} of the source's {} frames (others: {:?}) but is_exhausted() = {}", what, j, recv[j], l, recv, got);
+                }
+                Ok(())
+            };
+            all_flags(&outs, &recv, "initially")?;
+            for (k, i) in schedule.iter().enumerate() {
+                let i = *i % *outputs;
+                if recv[i] >= l {
+                    continue;
+                }
+                let got = outs[i].next();
+                ensure!(got == 1.0 + recv[i] as f64, "step {}: output {} got {}, expected source frame {}", k, i, got, recv[i]);
+                recv[i] += 1;
+                all_flags(&outs, &recv, &format!("after step {} (output {} pulled)", k, i))?;
+                lagging_while_done |= recv.iter().any(|r| *r >= l) && recv.iter().any(|r| *r < l);
+            }
+            for (j, o) in outs.into_iter().enumerate() {
+                let rest = o.until_exhausted().take((l - recv[j]) as usize + 10).count() as u64;
+                ensure!(rest == l - recv[j], "output {} had received {} of {} frames; until_exhausted() then yields {} more, expected {}", j, recv[j], l, rest, l - recv[j]);
+            }
+            st.nt(*outputs >= 2);
+            st.class_if(lagging_while_done, "bus: one output exhausted while another lags");
+            Ok(())
+        }
+    }
+}
+
 pub fn run(ctx: &mut Ctx) {
     ctx.set_rule(
         "cases are (frame type with 1..4 channels, adaptor tree over finite sources, consumption mode, extra pulls after exhaustion); sources are signal::from_iter, \
          signal::from_interleaved_samples_iter (with 0..channels-1 trailing samples of an incomplete frame) or instrumented probes; enumerated: every single adaptor and every pair of adaptors x source \
-         length 0..=12 x 4 channel counts x delay 0..=3 x every consumption mode, two-source adaptors with every (L1, L2) <= 6; random: trees to depth 4 (thorough 6); non-trivial: incomplete trailing frame, \
+         length 0..=12 x 4 channel counts x delay 0..=3 x every consumption mode, two-source adaptors with every (L1, L2) <= 6; random: trees to depth 4 (thorough 6); the combining adaptors that are not tree nodes: mul_hz with every (source length <= 8, multiplier-signal length <= 12, ratio k/4 <= 3, floor|linear) and bus outputs under random pull schedules; non-trivial: incomplete trailing frame, \
          length 0 or 1, two sources of different length, delay over a finite source, or extra pulls after exhaustion",
     );
     ctx.assume("stream model: a finite source yields its complete frames, then equilibrium; pointwise adaptors keep the length, two-source adaptors take the minimum, delay(k) adds k; is_exhausted() is compared before and after every next()");
+    ctx.assume("mul_hz: exhausted iff the multiplier signal is exhausted or a plain converter at the same constant ratio is (the converter's own exhaustion rule is C08's subject); bus output: exhausted iff it has received every source frame, outputs never pull once exhausted");
     for c in ["non-fused source iterator (yields items again after None)", "interleaved input with a trailing incomplete frame", "zero-length signal", "two sources of different length", "delay over a finite source", "pulls past exhaustion"] {
         ctx.require_class(c);
     }
@@ -371,6 +476,24 @@ pub fn run(ctx: &mut Ctx) {
         }
     }
     ctx.enumerate("interleaved-clone", true, cases.into_iter(), check_clone);
+
+    // combining adaptors that are not tree nodes: mul_hz (carrier + multiplier signal) and bus outputs
+    for c in ["mul_hz: the multiplier signal ends first", "mul_hz: the carrier ends first", "bus: one output exhausted while another lags"] {
+        ctx.require_class(c);
+    }
+    let mut cases = Vec::new();
+    for src_len in 0..=8u64 {
+        for ctl_len in 0..=12u64 {
+            for ratio_q in 1..=12u32 {
+                for linear in [false, true] {
+                    cases.push(CombCase::MulHz { src_len, ctl_len, ratio_q, linear });
+                }
+            }
+        }
+    }
+    ctx.enumerate("mul_hz-exhaustion", true, cases.into_iter(), check_comb);
+    let bus = (0u64..10, 1usize..=4, proptest::collection::vec(0usize..4, 0..40)).prop_map(|(src_len, outputs, schedule)| CombCase::Bus { src_len, outputs, schedule });
+    ctx.prop("bus-output-exhaustion", ctx.pick(5_000, 50_000), bus, check_comb);
 
     let depth = ctx.pick(4u32, 6);
     let strat = (0usize..8, tree_strategy(depth, false), modes(), prop_oneof![2 => Just(0u64), 1 => 1u64..6]).prop_map(|(f, mut tree, mode, extra)| {
